@@ -1,6 +1,8 @@
 SPECIFICATION Spec
 CONSTANTS
-  Pairs = {"r1n1", "r1n2", "r2n1"}
+  Res = {"r1", "r2"}
+  Nss = {"n1", "n2"}
+  ClusterScoped = {}
   MaxRevisions = 4
   MaxDeaths = 0
   HoldLock = FALSE
